@@ -33,7 +33,7 @@ def run(tier):
     drv = vlib.build_driver()
     outcome = vlib.Outcome(PID, tier)
     mc = vlib.model_check("Manager.tla", "Manager_none.cfg", os.path.join(work, "mc"))
-    mutants = ["connect_on_open", "no_reset_on_eof", "remove_no_wait"]
+    mutants = ["connect_on_open", "no_reset_on_eof", "remove_no_wait", "remove_unlocks_early"]
     for m in mutants:
         vlib.model_check("Manager.tla", "Manager_%s.cfg" % m, os.path.join(work, "mcm"), expect_violation=True)
     tr = os.path.join(work, "traces")
